@@ -1,4 +1,5 @@
 import WD.Model.Observer
+import WD.Proofs.Observer.ModelX
 import WD.Driver.Proto
 namespace WD.Driver
 open WD.Obs WD.Proto
@@ -55,6 +56,17 @@ def obsReplay (s : State) : List String → List String → State × List String
       | none => (s, acc ++ [line ++ "!DISABLED"])
     | none => (s, acc ++ [line ++ "!NOTHREAD"])
 
+/-- the schedule as thread indices (names resolved along the run) -/
+def obsIndexSched (s : State) : List String → List Nat
+  | [] => []
+  | name :: rest =>
+    match (List.range s.threads.length).find? (fun i => ((s.thread? i).map (·.name)) == some name) with
+    | some ti =>
+      match step s ti with
+      | some s2 => ti :: obsIndexSched s2 rest
+      | none => []
+    | none => []
+
 /-- `obs C <n> (<k> op*k)*n CB <m> (<hid> <j> (<k> op*k)*j)*m EM <p> (<wid> <k> v*k)*p S <q> name*q` -/
 def obsLine (ts : List String) : String :=
   (do
@@ -77,7 +89,11 @@ def obsLine (ts : List String) : String :=
       | _ => none) p r
     let sched ← (match r with | "S" :: _q :: names => some names | _ => none)
     let (fin, lines) := obsReplay (init clients cbs ems) sched []
+    -- the hypothesis of the `_partial` theorems of WD.Props.C04, evaluated on this very run
+    let idxSched := (obsIndexSched (init clients cbs ems) sched)
+    let ok := WD.ProofsObs.runOk (init clients cbs ems) idxSched
+    let oneD := decide ((fin.threads.filter (fun (t : Thread) => t.kind == Kind.dispatcher)).length ≤ 1)
     let left := fin.threads.filter (fun (t : Thread) => t.pc != Pc.done) |>.map (fun (t : Thread) => t.name)
-    some (" ".intercalate lines ++ " | " ++ " ".intercalate ((fin.hist.map obsShow).filter (· != "")) ++ " | left=[" ++ ",".intercalate left ++ "]")).getD "bad-op"
+    some (" ".intercalate lines ++ " | " ++ " ".intercalate ((fin.hist.map obsShow).filter (· != "")) ++ " | left=[" ++ ",".intercalate left ++ "]" ++ s!" # runOk={b01 ok} oneDispatcher={b01 oneD}")).getD "bad-op"
 
 end WD.Driver
